@@ -7,9 +7,9 @@
 package py
 
 import (
-	"fmt"
 	"math"
 	"math/cmplx"
+	"strings"
 )
 
 var ComplexType = ObjectType.NewType("complex64", "complex(real[, imag]) -> complex number\n\nCreate a complex number from a real part and an optional imaginary part.\nThis is equivalent to (real + imag*1j) where imag defaults to 0.", ComplexNew, nil)
@@ -62,7 +62,20 @@ func convertToComplex(other Object) (Complex, bool) {
 }
 
 func (a Complex) M__str__() (Object, error) {
-	return String(fmt.Sprintf("(%g%+gj)", real(complex128(a)), imag(complex128(a)))), nil
+	// the parts are written as floats are, without a trailing ".0"
+	part := func(f float64, sign bool) string {
+		o, _ := Float(f).M__str__()
+		s := strings.TrimSuffix(string(o.(String)), ".0")
+		if sign && !strings.HasPrefix(s, "-") {
+			s = "+" + s
+		}
+		return s
+	}
+	re, im := real(complex128(a)), imag(complex128(a))
+	if re == 0 && !math.Signbit(re) {
+		return String(part(im, false) + "j"), nil
+	}
+	return String("(" + part(re, false) + part(im, true) + "j)"), nil
 }
 
 func (a Complex) M__repr__() (Object, error) {
